@@ -366,3 +366,17 @@ MUTANTS += [
     dict(id="c10-strips-return-annotations", property="C10", edits=[(I, "        decorator = self._typechecker.get_ast()\n        ast.copy_location(decorator, node)\n        # Place at the end", "        decorator = self._typechecker.get_ast()\n        ast.copy_location(decorator, node)\n        if isinstance(node.returns, ast.Constant):\n            node.returns = None\n        # Place at the end")]),
     dict(id="c10-lambda-defaults-dropped", property="C10", edits=[(I, "class _JaxtypingLoader(SourceFileLoader):", "def _visit_Lambda(self, node):\n    if len(node.args.defaults) > 1:\n        node.args.defaults = node.args.defaults[::-1]\n    self.generic_visit(node)\n    return node\n\n\nJaxtypingTransformer.visit_Lambda = _visit_Lambda\n\n\nclass _JaxtypingLoader(SourceFileLoader):")]),
 ]
+
+MUTANTS += [
+    # ---- C11
+    dict(id="c11-startswith-without-dot", property="C11", edits=[(I, 'if module_name == module or module_name.startswith(module + "."):', "if module_name.startswith(module):")]),
+    dict(id="c11-uninstall-noop", property="C11", edits=[(I, "            sys.meta_path.remove(self.hook)\n", "            pass\n")]),
+    dict(id="c11-lookup-constant-key", property="C11", edits=[(I, "            Typechecker.lookup[self.hash] = vars[\"f\"]", "            self.hash = 'k'\n            Typechecker.lookup[self.hash] = vars[\"f\"]")]),
+    dict(id="c11-only-exact-name", property="C11", edits=[(I, 'if module_name == module or module_name.startswith(module + "."):', "if module_name == module:")]),
+    dict(id="c11-exit-does-not-uninstall", property="C11", edits=[(I, "    def __exit__(self, exc_type, exc_val, exc_tb):\n        self.uninstall()", "    def __exit__(self, exc_type, exc_val, exc_tb):\n        pass")]),
+    dict(id="c11-hook-appended-last", property="C11", edits=[(I, "    sys.meta_path.insert(0, hook)", "    sys.meta_path.insert(max(i for i, f in enumerate(sys.meta_path) if 'axtyping' in type(f).__name__) + 1 if any('axtyping' in type(f).__name__ for f in sys.meta_path) else 0, hook)")]),
+    dict(id="c11-str-modules-iterated-by-char", property="C11", edits=[(I, "    if isinstance(modules, str):\n        modules = [modules]\n", "")]),
+    dict(id="c11-tuple-checker-first-elem", property="C11", edits=[(I, '        typechecker = ".".join(typechecker)', '        typechecker = ".".join(typechecker[:2][:1] + ("A",))')]),
+    dict(id="c11-pytest-last-package-dropped", property="C11", edits=[("jaxtyping/_pytest_plugin.py", "    *packages, typechecker = packages\n", "    *packages, typechecker = packages\n    packages = packages[:-1] or packages\n")]),
+    dict(id="c11-ipython-keeps-old-transformer", property="C11", edits=[("jaxtyping/_ipython_extension.py", "                    lambda x: not isinstance(x, JaxtypingTransformer),", "                    lambda x: True,")]),
+]
